@@ -1,21 +1,21 @@
 SPECIFICATION Spec
 CONSTANTS
   Thr = {t1, t2}
-  NObj = 1
+  NObj = 2
   NCell = 1
   NWCell = 1
   Fld = {1}
   MaxTag = 0
   M = 16
   InitEp = {0}
-  MaxEp = 6
+  MaxEp = 4
   MaxOps = 3
   MaxDepth = 3
   ExpAge = 3
   CasAge = 3
-  OpsEnabled = {"drop","upgrade","clone","collect"}
-  Scen = "weak"
+  OpsEnabled = {"new_many","iter_next","iter_end","drop","collect","pin"}
+  Scen = "empty"
   Fix = {"pin", "inc", "mark", "stamp", "wmany", "newmany0"}
   Mut = {}
-INVARIANTS TypeOK C01 C01Link C02 C03 Once NoUnderflow EpochBound DepthBound FlagFirst WF
+INVARIANTS TypeOK C01 C01Link C02 C03 Once NoUnderflow EpochBound DepthBound FlagFirst Leak WF
 CHECK_DEADLOCK FALSE
